@@ -1,20 +1,20 @@
 INIT Init
 NEXT Next
 CONSTANTS
-  FactorNames <- N_small
+  FactorNames <- N_q7
   Powers <- P_pm2
-  MaxFactors = 2
-  Mags <- M_two
-  TargetNames <- N_tiny
+  MaxFactors = 1
+  Mags <- M_one
+  TargetNames <- N_small
   TargetPowers <- P_pm2
-  MaxTFactors = 2
-  ScaleKs <- K_two
+  MaxTFactors = 1
+  ScaleKs <- K_one
   Kinds <- Kinds_all
   PerturbNames <- N_base
   RegPool <- Regs2
   Keys = {"energy"}
   HelperNames = {"linspace"}
-  Plan <- Plan_hist3
+  Plan <- Plan_hist3t
 INVARIANT Reversible
 INVARIANT BackIsOriginal
 INVARIANT Composes
